@@ -309,6 +309,9 @@ def conf_scenarios(out_files):
     return scen
 
 
+DEVIATION_DETAIL = []      # (events, constants) of the first deviating scenarios of this process, for the report
+
+
 def conformance(tmp, out_files, tag, max_scen=400, budget_s=None):
     """Hidden-step conformance of single-session traces with Advertiser.tla
     (spec/AdvConf.tla). Returns (n_checked, deviations [ids], tlc stats)."""
@@ -375,4 +378,33 @@ def conformance(tmp, out_files, tag, max_scen=400, budget_s=None):
             for evs in part:
                 if evs[0]["id"] not in got:
                     deviations.append(evs[0]["id"])
+                    if len(DEVIATION_DETAIL) < 3:
+                        DEVIATION_DETAIL.append((evs, dict(consts)))
     return total, deviations, stats
+
+
+def longest_explained_prefix(evs, consts, timeout=300):
+    """For one deviating scenario: the number of leading trace lines some behaviour of Advertiser.tla explains, and the
+    first line nothing explains (binary search with the invariant Reach == l <= DebugK of AdvConf)."""
+    def reachable(k):           # is line k+1 reachable, i.e. are the first k lines explained?
+        wd = vf.mktmp("vf-cd-")
+        vf.write_ndjson(os.path.join(wd, "trace.ndjson"), evs)
+        cfg = os.path.join(wd, "c.cfg")
+        with open(cfg, "w") as f:
+            f.write("SPECIFICATION CSpec\nCONSTANTS\n")
+            for a, b in dict(consts, DebugK=k).items():
+                f.write("  %s = %s\n" % (a, b))
+            f.write("INVARIANT Reach\nCHECK_DEADLOCK FALSE\n")
+        try:
+            r = vf.tlc("AdvConf", cfg, workdir=wd, timeout=timeout, heap="4g")
+        except vf.Infra:
+            return False
+        return not r["ok"]
+    lo, hi = 1, len(evs)
+    while lo < hi:
+        mid = (lo + hi + 1) // 2
+        if reachable(mid - 1):
+            lo = mid
+        else:
+            hi = mid - 1
+    return lo, (evs[lo - 1] if lo - 1 < len(evs) else None)
